@@ -60,6 +60,15 @@ pub fn render_class_char(c: char, out: &mut String) {
     }
 }
 
+fn render_range_end(c: char, esc: bool, out: &mut String) {
+    if esc && matches!(c, '.' | '*' | '+' | '?' | '(' | ')' | '{' | '}' | '|' | '$') {
+        out.push('\\');
+        out.push(c);
+    } else {
+        render_class_char(c, out);
+    }
+}
+
 impl ClassExpr {
     pub fn render(&self, out: &mut String) {
         out.push('[');
@@ -70,9 +79,12 @@ impl ClassExpr {
             match it {
                 Item::Char(c) => render_class_char(*c, out),
                 Item::Range(a, b) => {
-                    render_class_char(*a, out);
+                    // end points that are metacharacters outside a class may be written escaped (\. \* ...):
+                    // done for the pairs whose code points differ in the lowest bit, so both spellings occur
+                    let esc = ((*a as u32) ^ (*b as u32)) & 1 == 1;
+                    render_range_end(*a, esc, out);
                     out.push('-');
-                    render_class_char(*b, out);
+                    render_range_end(*b, esc, out);
                 }
                 Item::Esc(e) => out.push_str(&e.render()),
             }
